@@ -337,6 +337,12 @@ func runC06(tier string, seed uint64) {
 				s.MkBucket(b)
 			}
 			keys := []string{"obj", "dir/obj2"}
+			switch i % 4 {
+			case 2: // a '%' that is no escape, a blank: nothing about a key may make a complete fail half way
+				keys = []string{"50%off", "sales/growth 100%.csv"}
+			case 3:
+				keys = []string{"a%zz", "p%/q%2"}
+			}
 			var ups []*upl
 			pick := func() *upl {
 				if len(ups) == 0 || rng.Intn(15) == 0 {
@@ -535,6 +541,17 @@ func runC14(tier string, seed uint64) {
 			case w < 75:
 				u := ups[rng.Intn(len(ups))]
 				pn := []int{1, 2, 3, 5, 8, 13, 40, 9999, 10000}[rng.Intn(9)]
+				if rng.Intn(6) == 0 {
+					// the part number as a client may spell it: a decimal numeral, zero-padded or signed; anything
+					// else names no part (the listing shows the part under its true number)
+					sp := []string{"010", "008", "+3", "00013", "0x10", "0b11", "0o17", "1_0", "1e1", " 5"}[rng.Intn(10)]
+					body := c06Body(rng, j)
+					r := s.PartRaw(b, u.key, u.id, sp, [][2]string{{"Content-Length", strconv.Itoa(len(body))}}, body, -1)
+					if n, err := strconv.ParseInt(sp, 10, 32); err == nil && r.Status == 200 {
+						u.etags[int(n)] = r.Header.Get("ETag")
+					}
+					continue
+				}
 				if et := s.UploadPart(b, u.key, u.id, pn, c06Body(rng, j)); et != "" {
 					u.etags[pn] = et
 				}
